@@ -65,8 +65,6 @@ def handle (op : String) (args : List String) : Option String := do
       let fp := fs.getD 0 0; let fq := fs.getD 1 0
       let d := dist (v3 fs 2) (v3 fs 5)
       pure (boolStr ((fp - fq).abs ≤ d * (1 + 1e-9) + 1e-9 * (max 1 (max fp.abs fq.abs))))
-  | "c19.holds.sign_exact" =>     -- args: impl value, reference signed distance (computed below per shape)
-      none
   | "c19.holds.sphere" =>         -- c r p f : sign and exact distance
       let ref := dist (v3 fs 4) (v3 fs 0) - fs.getD 3 0
       pure (boolStr (close 1e-9 ref (fs.getD 7 0)))
